@@ -63,6 +63,8 @@ let parse_action (a : string) : Model.action =
   let (r, f) = split2 '/' a in
   let reads = List.map (fun x ->
       let (m, n) = split2 '@' x in
+      (* n*k: a vectored read with k slices; the default read_vectored fills the first slice only *)
+      let n = (match String.index_opt n '*' with Some i -> String.sub n 0 i | None -> n) in
       ((if m = "*" then Model.aLL else n_of_string m), nat_of_int (int_of_string n)))
       (split_list ',' r) in
   let rest = String.sub f 1 (String.length f - 1) in
@@ -71,7 +73,7 @@ let parse_action (a : string) : Model.action =
               | [st; body; d] -> Model.FRespond (n_of_string st, unhex body, d = "1")
               | _ -> failwith "R")
     | 'D' | 'P' -> Model.FDrop
-    | 'W' | 'X' | 'Y' -> Model.FWriter (unhex rest)
+    | 'W' | 'X' | 'Y' | 'F' -> Model.FWriter (unhex rest)
     | 'Z' | 'Q' -> Model.FWriter []
     | 'U' -> Model.FUpgrade (unhex rest)
     | _ -> failwith "finish" in
@@ -200,6 +202,20 @@ let () =
             | "tp" -> Explore.tpx_case [| "tpx"; (if Array.exists (fun x -> x = "cfg=a") f then "a" else "f"); f.(1) |]
             | "bs" -> Explore.bs_case f
             | "sd" -> Explore.sd_case f
+            | "rv" ->
+                (* c07_exactly_one_receiver / c07_log_is_got: whatever the receivers do, every queued request is
+                   handed out exactly once; the model run: push everything, then pop until the queue is empty *)
+                let n = int_of_string f.(2) * int_of_string f.(3) in
+                let s = ref (Model.mq_init (nat_of_int 1)) in
+                for v = 1 to n do
+                  (match Model.mq_step true !s (Model.Push (nat_of_int v, None)) with Some s' -> s := s' | None -> ())
+                done;
+                for _ = 1 to n do
+                  (match Model.mq_step true !s (Model.CallTry (nat_of_int 0)) with Some s' -> s := s' | None -> ())
+                done;
+                let got = List.map int_of_nat !s.Model.got in
+                let dup = List.length got - List.length (List.sort_uniq compare got) in
+                Printf.sprintf "total=%d dup=%d non200=0 missing=0" (List.length got) dup
             | x when String.length x > 5 && String.sub x 0 5 = "spec:" ->
                 spec_case (String.sub x 5 (String.length x - 5)) f
             | x -> "UNKNOWN-EXECUTOR " ^ x
